@@ -82,6 +82,10 @@ def run(name, checks=None, tier="quick"):
     rc, o = sh(["git", "-C", "/repo", "apply", os.path.join(d, "patch.diff")])
     if rc != 0:
         print("apply failed", o); sys.exit(2)
+    saved = {}
+    for c in checks:
+        ep = os.path.join(VERIF, "evidence", c + ".json")
+        saved[ep] = open(ep).read() if os.path.exists(ep) else None
     try:
         for c in checks:
             t0 = time.time()
@@ -98,6 +102,9 @@ def run(name, checks=None, tier="quick"):
             print(name, c, "CAUGHT" if caught else "MISSED", vio[:1], rp if caught else o[-300:])
     finally:
         sh(["git", "-C", "/repo", "checkout", "--", "."])
+        for ep, txt in saved.items():       # evidence must describe the unchanged tree, not a seeded change
+            if txt is not None:
+                open(ep, "w").write(txt)
     json.dump(meta, open(os.path.join(d, "meta.json"), "w"), indent=1)
 
 
